@@ -2,6 +2,7 @@
 context wiring, free-name closure, ignore distribution, error functions, class tables."""
 import ast
 import builtins
+import re
 
 from .common import AnalysisError, Finding
 from . import load
@@ -92,6 +93,20 @@ def route_grammars(R):
                 R.Class('CP', [R.Rule('v', R.Ref('Number'))], params=['Number'])]
     G.append(('shadow', shadow, {}))
 
+    def deep():
+        e = R.Seq(R.Ref('X'), R.Str('y'), R.Call(R.Ref('T'), [R.Ref('X')]))
+        for i in range(24):
+            e = R.Seq(e) if i % 2 else R.Opt(e)
+        inner = R.Seq(R.Ref('v'), R.Str('w'))
+        for i in range(24):
+            inner = R.Seq(inner)
+        return [R.Rule('start', e),
+                R.Rule('D', R.Let('v', R.Ref('X'), inner)),
+                R.Rule('T', R.Right(R.Ref('p'), R.Str('!')), params=['p']),
+                R.Rule('X', R.Regex('b+')),
+                R.Rule('Space', R.Regex(r'\s+'), ignored=True)]
+    G.append(('deep-nesting', deep, {}))
+
     def let():
         return [R.Rule('start', R.Let('x', R.Ref('X'), R.Call(R.Ref('T'), [R.Ref('x')]))),
                 R.Rule('T', R.Right(R.Ref('p'), R.Str('!')), params=['p']),
@@ -147,7 +162,11 @@ def emitted_modules():
     out = []
     for label, build, kw in route_grammars(R):
         for name in (None, 'gmod'):
-            e = R.emit(f'{label}[ctx={int(name is not None)}]', build(), name=name)
+            body = build()
+            e = R.emit(f'{label}[ctx={int(name is not None)}]', body, name=name)
+            if isinstance(e, modroute.Emitted):
+                e.body = body
+                e.route = label
             out.append(e if isinstance(e, modroute.Emitted) else (f'{label}[ctx={int(name is not None)}]', e))
     for label, pnodes, pbuild, cbuild in sub_routes(R):
         pe = R.emit(f'{label}:parent', pbuild(), name='pmod')
@@ -156,13 +175,19 @@ def emitted_modules():
             out.append(e if isinstance(e, modroute.Emitted) else (l, e))
         if isinstance(ce, modroute.Emitted) and isinstance(pe, modroute.Emitted):
             ce.parent = pe
-        # three-level chain
-        ge = R.emit(f'{label}:grandchild', [R.Rule('N2', R.Choice(R.Super('N'), R.Super('X')))], name='gcmod',
-                    extends=R.parent('cmod', [modroute.node('RuleDef', is_override=False, is_ignored=False,
-                                                            name='X', params=None, expr=None),
-                                              modroute.node('RuleDef', is_override=False, is_ignored=False,
-                                                            name='N', params=None, expr=None)],
-                                     extends=R.parent('pmod', pnodes)))
+        # three-level chain: the child's statements as the grandchild sees them (parser nodes)
+        cnodes = []
+        for o in cbuild():
+            nm = o.d.get('name')
+            if o.cls.name == 'Class':
+                cnodes.append(modroute.node('ClassDef', name=nm, params=o.d.get('params'), members=[]))
+            elif nm is None and o.d.get('is_ignored'):
+                cnodes.append(modroute.node('IgnoreStmt', expr=None))
+            else:
+                cnodes.append(modroute.node('RuleDef', is_override=False, is_ignored=bool(o.d.get('is_ignored')),
+                                            name=nm, params=o.d.get('params'), expr=None))
+        ge = R.emit(f'{label}:grandchild', [R.Rule('N2', R.Choice(R.Super('N'), R.Super('X'), R.Ref('Y')))],
+                    name='gcmod', extends=R.parent('cmod', cnodes, extends=R.parent('pmod', pnodes)))
         if isinstance(ge, modroute.Emitted):
             ge.parent = ce if isinstance(ce, modroute.Emitted) else None
             out.append(ge)
@@ -213,8 +238,19 @@ def runtime_subjects():
 
 # --------------------------------------------------------------------------- helpers
 def runtime_defs(uses_context):
-    """name -> FunctionDef/ClassDef of the runtime template for this convention"""
-    tree, src = load.runtime_ast(uses_context)
+    """name -> FunctionDef/ClassDef of the runtime for this convention, as actually emitted
+    (taken from the `plain` route module; falls back to instantiating the template)"""
+    key = ('rtdefs', uses_context)
+    if key in _cache:
+        return _cache[key]
+    tree = None
+    if 'mods' in _cache:
+        for m in _cache['mods'][1]:
+            if isinstance(m, modroute.Emitted) and not m.sub and m.uses_context == uses_context \
+                    and getattr(m, 'route', '') == 'plain':
+                tree = m.tree
+    if tree is None:
+        tree, src = load.runtime_ast(uses_context)
     out = {}
     for n in tree.body:
         if isinstance(n, (ast.FunctionDef, ast.ClassDef)):
@@ -226,6 +262,8 @@ def runtime_defs(uses_context):
         elif isinstance(n, (ast.Import, ast.ImportFrom)):
             for a in n.names:
                 out[(a.asname or a.name).split('.')[0]] = n
+    if 'mods' in _cache:
+        _cache[key] = out
     return out
 
 
@@ -421,21 +459,38 @@ def conformance(mod, bad, stats):
                 elif strip_ctx(callee) is None:
                     raise AnalysisError(f'{where}: request with callee {ast.unparse(callee)} in {fname} '
                                         f'is of no known form')
-        # direct calls of emitted helper functions (spill path)
+        # direct invocations of emitted helper functions (spill path)
+        delegated = {id(n.value) for n in ast.walk(fn) if isinstance(n, ast.YieldFrom)}
         for n in ast.walk(fn):
             if isinstance(n, ast.Call) and isinstance(n.func, ast.Name) and n.func.id in funcs \
                     and n.func.id.startswith('_parse_function_'):
                 h = funcs[n.func.id]
                 stats['callsites'] += 1
+                stats['spills'] = stats.get('spills', 0) + 1
                 hp = positional_params(h)
                 if len(n.args) != len(hp) or any(isinstance(a, ast.Name) and a.id != p
                                                   for a, p in zip(n.args, hp)):
                     bad('CONV-arity', f'{where}: helper {h.name}{tuple(hp)} is called with '
                                       f'({", ".join(ast.unparse(a) for a in n.args)}) in {fname}')
-                if is_generator(h):
-                    bad('SPILL-kind', f'{where}: {fname} calls helper {h.name} directly and unpacks its result, '
-                                      f'but the helper body suspends (it contains a request): the call returns '
-                                      f'a generator object')
+                tail = h.body[-1] if h.body else None
+                if id(n) in delegated:
+                    if not is_generator(h):
+                        bad('SPILL-kind', f'{where}: {fname} delegates to helper {h.name} with `yield from`, but '
+                                          f'the helper is a plain function: its result tuple would be iterated')
+                    if not (isinstance(tail, ast.Return) and ast.unparse(tail.value) == '(_status, _result, _pos)'):
+                        bad('SPILL-kind', f'{where}: helper {h.name} is delegated to but does not return the '
+                                          f'register triple')
+                else:
+                    if is_generator(h):
+                        bad('SPILL-kind', f'{where}: {fname} calls helper {h.name} like a plain function and '
+                                          f'unpacks its result, but the helper body suspends (it contains a '
+                                          f'request): the call returns a generator object')
+                # the helper must be transparent: the caller assigns its triple to the registers
+                par = [x for x in ast.walk(fn) if isinstance(x, ast.Assign) and (
+                    x.value is n or (isinstance(x.value, ast.YieldFrom) and x.value.value is n))]
+                if not par or ast.unparse(par[0].targets[0]) != '(_status, _result, _pos)':
+                    bad('SPILL-kind', f'{where}: the result of helper {h.name} is not assigned to '
+                                      f'(_status, _result, _pos) in {fname}')
     # entry points
     for fname, fn in funcs.items():
         if fname.startswith('_parse_') and not fname.startswith('_parse_function_'):
@@ -531,9 +586,42 @@ def check_entry(fn, qual, mod, bad, funcs, stats, cls=None):
             pass
         need = required_count(fn2) - len(prefix_params(ctx))
         if need > 0:
-            bad('ENTRY-params', f'{where}: {qual} starts {name}{tuple(positional_params(fn2))} without its '
+            bad('ENTRY-params@rule', f'{where}: {qual} starts {name}{tuple(positional_params(fn2))} without its '
                                 f'{need} parameter(s): the entry point of a parameterised rule cannot work')
     check_run_call(rets[0].value, qual, impl_ok)
+
+
+def local_shadowing(mod, bad, stats):
+    """C05/C06: a name bound by a parameter, a `let` or an earlier class field denotes the local value
+    in every later reference of the same body - never the grammar rule of the same name."""
+    pre = set(prefix_params(mod.uses_context))
+    for fname, fn in functions_top(mod.tree).items():
+        if not fname.startswith(('_try_', '_parse_function_')):
+            continue
+        bound = set(positional_params(fn)) - pre
+        for n in ast.walk(fn):
+            if isinstance(n, ast.Assign) and isinstance(n.value, ast.Name) and n.value.id == '_result':
+                for t in n.targets:
+                    if isinstance(t, ast.Name) and not t.id.startswith(('item', 'arg', 'func', 'staging')):
+                        bound.add(t.id)
+        if not bound:
+            continue
+        stats['bound_names'] = stats.get('bound_names', 0) + len(bound)
+        for callee, pos, y in requests_in(fn):
+            s2 = strip_ctx(callee)
+            if s2 and s2[0].startswith('_try_') and s2[0][5:] in bound and s2[1] in ('bare', 'ctx'):
+                bad('LOCAL-shadow', f'{mod.label}: in {fname} the name {s2[0][5:]} is bound locally (parameter, let '
+                                    f'or field) but the reference to it is emitted as the grammar rule '
+                                    f'{ast.unparse(callee)}: the argument / bound value is ignored')
+        # arguments built from a local name must pass the local, not the rule
+        for n in ast.walk(fn):
+            if isinstance(n, ast.Call) and isinstance(n.func, ast.Name) and n.func.id == '_ParseFunction' \
+                    and len(n.args) == 3 and isinstance(n.args[1], ast.Tuple):
+                for a in list(n.args[1].elts) + [n.args[0]]:
+                    s2 = strip_ctx(a)
+                    if s2 and s2[0].startswith('_try_') and s2[0][5:] in bound:
+                        bad('LOCAL-shadow', f'{mod.label}: in {fname} the locally bound name {s2[0][5:]} is passed '
+                                            f'on as the grammar rule {ast.unparse(a)}')
 
 
 # --------------------------------------------------------------------------- wiring / free names
@@ -579,7 +667,7 @@ def context_wiring(mod, bad, stats):
             for n in ast.walk(fn):
                 if isinstance(n, ast.Attribute) and isinstance(n.ctx, ast.Load) and isinstance(n.value, ast.Name) \
                         and n.value.id == '_ctx' and n.attr not in assigned and n.attr != '_super_ctx':
-                    bad('WIRE-inherited', f'{mod.label}: inherited function {fname} of {anc.label} reads '
+                    bad('WIRE-inherited@' + re.sub(r'_anonymous_\d+', '_anonymous_N', n.attr), f'{mod.label}: inherited function {fname} of {anc.label} reads '
                                           f'_ctx.{n.attr}, which this sub-grammar does not put on its context: '
                                           f'AttributeError when the inherited rule runs through the sub-grammar')
         anc = getattr(anc, 'parent', None)
@@ -602,7 +690,7 @@ def context_wiring(mod, bad, stats):
                             passigned.add(t.attr)
             for a, fname in sreads.items():
                 if a not in passigned:
-                    bad('WIRE-super', f'{mod.label}: {fname} reads _super_ctx.{a}, which the parent module never '
+                    bad('WIRE-super@' + a, f'{mod.label}: {fname} reads _super_ctx.{a}, which the parent module never '
                                       f'assigns on its context (it assigns {sorted(passigned)})')
     # wiring statements themselves: the value must exist
     names = module_level_names(mod.tree)
@@ -684,12 +772,11 @@ def ignore_distribution(R, bad, stats):
     """After generate_source_code has run on a grammar with ignore declarations every literal
     object (wherever it sits: ignored rules, template arguments incl. keyword arguments, class
     members) carries skip_ignored=True; without ignore declarations none does."""
-    for label, build, kw in route_grammars(R):
-        for name in (None, 'gmod'):
-            body = build()
-            e = R.emit(label, body, name=name)
-            if not isinstance(e, modroute.Emitted):
+    for e in emitted_modules()[1]:
+        if True:
+            if not isinstance(e, modroute.Emitted) or not hasattr(e, 'body'):
                 continue
+            body, label = e.body, e.label
             has_ignore = any(isinstance(r, M.Obj) and r.d.get('is_ignored') for r in body)
             lits = [o for o in walk_objs(body) if o.cls.name in LITERALS]
             stats['literals'] += len(lits)
@@ -705,3 +792,353 @@ def ignore_distribution(R, bad, stats):
             for o in walk_objs(body):
                 if o.cls.name not in LITERALS and 'skip_ignored' in o.d and o.d['skip_ignored']:
                     bad('IGN-only-literals', f'{label}: {o.cls.name} object carries skip_ignored')
+
+
+# --------------------------------------------------------------------------- more rules
+def start_prefix_and_ignored_rule(R, mods, bad, stats):
+    """C04: the start rule begins by skipping ignorable text; the synthetic _ignored rule is
+    Skip over exactly the ignored rules."""
+    ign = impl('_ignored')
+    for m in mods:
+        if not isinstance(m, modroute.Emitted):
+            continue
+        funcs = functions_top(m.tree)
+        has_ignore_rule = ign in funcs
+        wired_from_parent = any(
+            isinstance(n, ast.Assign) and ast.unparse(n.targets[0]) == f'_ctx.{ign}'
+            and ast.unparse(n.value) == f'_super_ctx.{ign}' for n in m.tree.body)
+        if not has_ignore_rule and not wired_from_parent:
+            # no ignore declarations: nobody may request the ignore rule
+            for fname, fn in funcs.items():
+                for callee, pos, y in requests_in(fn):
+                    s = strip_ctx(callee)
+                    if s and s[0] == ign:
+                        bad('IGN-only-with-ignore', f'{m.label}: {fname} requests {ign} in a grammar without '
+                                                    f'ignore declarations')
+            continue
+        stats['ignore_modules'] += 1
+        # start rule: the function public parse() starts
+        parse = funcs.get('parse')
+        if parse is None:
+            raise AnalysisError(f'{m.label}: no public parse()')
+        call = [n for n in ast.walk(parse) if isinstance(n, ast.Call) and isinstance(n.func, ast.Name)
+                and n.func.id == '_run']
+        if len(call) != 1:
+            raise AnalysisError(f'{m.label}: parse() does not call the driver once')
+        start_node = call[0].args[-2]
+        s = strip_ctx(start_node)
+        sfn = funcs.get(s[0]) if s else None
+        if sfn is not None:
+            reqs = requests_in(sfn)
+            first = strip_ctx(reqs[0][0]) if reqs else None
+            # nothing may be matched before the first request
+            if not first or first[0] != ign:
+                bad('IGN-start-prefix', f'{m.label}: the start rule {sfn.name} does not begin by skipping '
+                                        f'ignorable text (first request: '
+                                        f'{ast.unparse(reqs[0][0]) if reqs else "none"})')
+            else:
+                if ast.unparse(reqs[0][1]) != '_pos':
+                    bad('IGN-start-prefix', f'{m.label}: leading skip of {sfn.name} starts at '
+                                            f'{ast.unparse(reqs[0][1])}')
+                # the leading skip must come before any literal test
+                y = reqs[0][2]
+                for n in ast.walk(sfn):
+                    if isinstance(n, ast.Subscript) and isinstance(n.value, ast.Name) and n.value.id == '_text' \
+                            and (n.lineno, n.col_offset) < (y.lineno, y.col_offset):
+                        bad('IGN-start-prefix', f'{m.label}: {sfn.name} looks at the text before the leading skip')
+                        break
+        if has_ignore_rule:
+            body_objs = None
+            want = set()
+            for n in m.tree.body:
+                pass
+            # names of the ignored rules = rules whose builder objects are flagged is_ignored
+            ifn = funcs[ign]
+            got = []
+            for callee, pos, y in requests_in(ifn):
+                s2 = strip_ctx(callee)
+                got.append(ast.unparse(callee))
+            m.ignored_requests = got
+
+
+def route_ignored_sets(R, bad, stats):
+    """the synthetic rule refers to exactly the rules flagged is_ignored (in declaration order)"""
+    for e in emitted_modules()[1]:
+        if True:
+            if not isinstance(e, modroute.Emitted) or not hasattr(e, 'body'):
+                continue
+            body, label = e.body, e.label
+            ign_names = [r.d.get('name') for r in body if isinstance(r, M.Obj) and r.d.get('is_ignored')
+                         and r.d.get('name') != '_ignored']
+            funcs = functions_top(e.tree)
+            if not ign_names:
+                continue
+            ifn = funcs.get(impl('_ignored'))
+            if ifn is None:
+                bad('IGN-rule', f'{label}: ignore declarations but no synthetic {impl("_ignored")} rule')
+                continue
+            got = []
+            for callee, pos, y in requests_in(ifn):
+                s2 = strip_ctx(callee)
+                if s2:
+                    got.append(s2[0])
+            want = [impl(n) for n in ign_names]
+            stats['ignored_rules'] += len(want)
+            if got != want:
+                bad('IGN-rule', f'{label}: the synthetic ignore rule tries {got}, expected exactly the ignored '
+                                f'rules {want}')
+            # the ignored rules themselves never request the ignore rule recursively through Skip
+            # (their literals do, after a match: that is the documented "after every literal")
+
+
+def who_may_call_ignored(bad, stats):
+    """`utils.skip_ignored` is referenced only from the literal classes' _compile; the name of the
+    ignore rule is built only in skip_ignored, the start-rule prefixing and the context wiring."""
+    lit_files = {'sourcer/expressions/str.py', 'sourcer/expressions/regex.py', 'sourcer/expressions/byte.py'}
+    for rel in load.expression_files() + ['sourcer/translator.py', 'sourcer/grammar.py']:
+        tree = load.parse(rel)
+        for fname, fn in load.functions_of(tree).items():
+            for n in ast.walk(fn):
+                if isinstance(n, ast.Call):
+                    f = ast.unparse(n.func)
+                    if f.endswith('skip_ignored') and 'def' not in f:
+                        stats['skip_calls'] += 1
+                        if rel not in lit_files or not fname.endswith('._compile'):
+                            bad('IGN-who-may-call', f'{rel}:{fname} calls skip_ignored: ignored text may only be '
+                                                    f'skipped by the literal matchers (and before the start rule)')
+                    if f.endswith('implementation_name') and n.args and isinstance(n.args[0], ast.Constant) \
+                            and n.args[0].value == '_ignored':
+                        stats['ignored_name_sites'] += 1
+                        ok = (rel == 'sourcer/expressions/utils.py' and fname == 'skip_ignored') or (
+                            rel == 'sourcer/translator.py' and fname == 'generate_source_code')
+                        if not ok:
+                            bad('IGN-who-may-call', f'{rel}:{fname} builds the name of the ignore rule')
+
+
+def error_functions(mods, bad, stats):
+    """C09 c: generated _raise_error<N>: (line, col) are None exactly under len(text) <= pos, otherwise
+    come from _get_line_and_column(text, pos); every path raises ParseError(message, pos, line, col)."""
+    for m in mods:
+        if not isinstance(m, modroute.Emitted):
+            continue
+        rt = None
+        for fname, fn in functions_top(m.tree).items():
+            if not fname.startswith('_raise_error'):
+                continue
+            stats['error_functions'] += 1
+            params = positional_params(fn)
+            if len(params) != 2:
+                bad('ERR-shape', f'{m.label}: {fname}{tuple(params)}: the driver calls error functions with (text, pos)')
+                continue
+            T, Pp = ('PARAM', params[0]), ('PARAM', params[1])
+            paths = P.Enumerator().function(fn)
+            for p in paths:
+                if p.end[0] != 'raise':
+                    bad('ERR-must-raise', f'{m.label}: {fname} has a path that does not raise: the driver would '
+                                          f'fall through to a 2-argument ParseError')
+                    continue
+                exc = p.end[1]
+                if not (isinstance(exc, tuple) and exc[:2] == ('CALL', ('VAR', 'ParseError')) and len(exc) == 6):
+                    bad('ERR-shape', f'{m.label}: {fname} raises {P.tfmt(exc)[:100]}; expected '
+                                     f'ParseError(message, pos, line, col)')
+                    continue
+                msg, index, line, col = exc[2:]
+                if index != Pp:
+                    bad('ERR-position', f'{m.label}: {fname} reports index {P.tfmt(index)}, expected the failure '
+                                        f'position it was called with')
+                eoi = [t for t in p.tests() if t[1] in (('CMP', ('LtE',), ('CALL', ('VAR', 'len'), T), Pp),
+                                                        ('CMP', ('GtE',), Pp, ('CALL', ('VAR', 'len'), T)))]
+                if len(eoi) != 1:
+                    bad('ERR-position', f'{m.label}: {fname}: the end-of-input case is not decided by '
+                                        f'`len(text) <= pos`')
+                    continue
+                lc = ('CALL', ('VAR', '_get_line_and_column'), T, Pp)
+                if eoi[0][2]:
+                    if line != ('CONST', 'None') or col != ('CONST', 'None'):
+                        bad('ERR-position', f'{m.label}: {fname}: at end of input line/column are '
+                                            f'{P.tfmt(line)}/{P.tfmt(col)}, expected None/None')
+                else:
+                    if line != ('UNPACK', lc, 0) or col != ('UNPACK', lc, 1):
+                        bad('ERR-position', f'{m.label}: {fname}: line/column are {P.tfmt(line)}/{P.tfmt(col)}, '
+                                            f'expected those of _get_line_and_column(text, pos)')
+                    ex = [e for e in p.events('assign') if isinstance(e[3], tuple)
+                          and e[3][:2] == ('CALL', ('VAR', '_extract_excerpt'))]
+                    if ex and ex[0][3][2:] != (T, Pp, ('UNPACK', lc, 1)):
+                        bad('ERR-position', f'{m.label}: {fname}: excerpt built from '
+                                            f'{P.tfmt(ex[0][3])}, expected _extract_excerpt(text, pos, col)')
+
+
+def class_tables(rep=None, only_rules=None, bad=None, stats=None):
+    """C05 d / C14 b: generated class bodies - _fields, __init__ parameters, attribute stores, repr and
+    the constructor call in the class's parse function list the same names in declaration order;
+    let/pass members are parsed but not passed."""
+    R, mods = emitted_modules()
+    found = []
+    if bad is None:
+        bad = lambda rule, msg: found.append((rule, msg))
+    n = 0
+    for m in mods:
+        if not isinstance(m, modroute.Emitted):
+            continue
+        funcs = functions_top(m.tree)
+        for cname, cls in m.classes.items():
+            if not any(isinstance(b, ast.Name) and b.id == 'ParsedObject' for b in cls.bases):
+                continue
+            if cname in ('Infix', 'Prefix', 'Postfix'):
+                continue
+            n += 1
+            fields = None
+            for st in cls.body:
+                if isinstance(st, ast.Assign) and any(isinstance(t, ast.Name) and t.id == '_fields' for t in st.targets):
+                    fields = list(ast.literal_eval(st.value))
+            init = next((x for x in cls.body if isinstance(x, ast.FunctionDef) and x.name == '__init__'), None)
+            rp = next((x for x in cls.body if isinstance(x, ast.FunctionDef) and x.name == '__repr__'), None)
+            if fields is None or init is None or rp is None:
+                bad('C14-field-tables', f'{m.label}: class {cname} lacks _fields/__init__/__repr__')
+                continue
+            params = [a.arg for a in init.args.args][1:]
+            if params != fields:
+                bad('C14-field-tables', f'{m.label}: {cname}.__init__ takes {params}, _fields is {fields}')
+            stores = {}
+            for node in ast.walk(init):
+                if isinstance(node, ast.Assign) and isinstance(node.targets[0], ast.Attribute) \
+                        and ast.unparse(node.targets[0].value) == 'self':
+                    stores[node.targets[0].attr] = ast.unparse(node.value)
+            for f in fields:
+                if stores.get(f) != f:
+                    bad('C14-field-tables', f'{m.label}: {cname}.__init__ stores {stores.get(f)!r} in self.{f}')
+            if not any(isinstance(x, ast.Call) and ast.unparse(x.func) == 'ParsedObject.__init__' for x in ast.walk(init)):
+                bad('C14-field-tables', f'{m.label}: {cname}.__init__ does not initialise ParsedObject')
+            rets = [x for x in ast.walk(rp) if isinstance(x, ast.Return)]
+            ok = False
+            if len(rets) == 1 and isinstance(rets[0].value, ast.JoinedStr):
+                vals = rets[0].value.values
+                attrs = [ast.unparse(v.value) for v in vals if isinstance(v, ast.FormattedValue)]
+                lit = ''.join(v.value for v in vals if isinstance(v, ast.Constant))
+                kws = [k for k in lit[len(cname) + 1:-1].replace(' ', '').split(',') if k]
+                ok = attrs == [f'self.{f}' for f in fields] and lit.startswith(cname + '(') and lit.endswith(')') \
+                    and kws == [f'{f}=' for f in fields] \
+                    and all(v.conversion == ord('r') for v in vals if isinstance(v, ast.FormattedValue))
+            elif len(rets) == 1 and isinstance(rets[0].value, ast.Constant) and not fields:
+                ok = rets[0].value.value == f'{cname}()'
+            if not ok:
+                bad('C14-field-tables', f'{m.label}: {cname}.__repr__ is not {cname}(<field>=<value!r>, ...) over '
+                                        f'_fields in order')
+            # constructor call in the parse function
+            pf = funcs.get(impl(cname))
+            if pf is None:
+                bad('C05-class-ctor', f'{m.label}: class {cname} has no parse function {impl(cname)}')
+                continue
+            ctor = [x for x in ast.walk(pf) if isinstance(x, ast.Call) and isinstance(x.func, ast.Name)
+                    and x.func.id == cname]
+            if len(ctor) != 1:
+                bad('C05-class-ctor', f'{m.label}: {impl(cname)} constructs {cname} {len(ctor)} times')
+                continue
+            args = [ast.unparse(a) for a in ctor[0].args]
+            if args != fields or ctor[0].keywords:
+                bad('C05-class-ctor', f'{m.label}: {impl(cname)} calls {cname}({", ".join(args)}); the fields are '
+                                      f'{fields} (declaration order, let/pass members dropped)')
+    if stats is not None:
+        stats['classes'] = stats.get('classes', 0) + n
+    if rep is not None:
+        rep.count('generated classes examined', n)
+        for rule, msg in found:
+            if only_rules is None or rule in only_rules:
+                rep.add(Finding(rule, 'sourcer/expressions/class_.py:Class._compile', '', msg,
+                                'sourcer/expressions/class_.py:Class._compile_class_body'))
+    return found
+
+
+def class_members(R, bad, stats):
+    """C05 d: member kinds - plain fields are passed, `let` fields and `pass` members are parsed
+    (their expression is compiled into the parse function) but not passed, `requires` is a Where."""
+    for e in emitted_modules()[1]:
+        if not isinstance(e, modroute.Emitted) or getattr(e, 'route', None) != 'classes':
+            continue
+        funcs = functions_top(e.tree)
+        pf = funcs.get(impl('K'))
+        if pf is None:
+            raise AnalysisError('route classes: parse function of K missing')
+        src = ast.unparse(pf)
+        stats['member_checks'] += 1
+        # members in order: f (Ref X), g let "q", pass "z", requires, h (Call P)
+        reqs = [ast.unparse(c) for c, p, y in requests_in(pf)]
+        consts = [n.value for n in ast.walk(pf) if isinstance(n, ast.Constant) and isinstance(n.value, str)]
+        if "'q'" not in src and 'q' not in consts:
+            bad('C05-class-members', f'{e.label}: the `let` member of K is not parsed')
+        if 'z' not in consts:
+            bad('C05-class-members', f'{e.label}: the `pass` member of K is not parsed')
+        if 'lambda _: f != g' not in src:
+            bad('C05-class-members', f'{e.label}: the `requires` condition of K is not evaluated')
+        # binder order: each named member is bound before the next member starts
+        stores = [(n.lineno, t.id) for n in ast.walk(pf) if isinstance(n, ast.Assign)
+                  for t in n.targets if isinstance(t, ast.Name) and t.id in ('f', 'g', 'h')
+                  and isinstance(n.value, ast.Name) and n.value.id == '_result']
+        order = [nm for _, nm in sorted(stores)]
+        if order != ['f', 'g', 'h']:
+            bad('C05-class-members', f'{e.label}: members of K are bound in the order {order}')
+
+
+ROUTE_PROPS = [
+    (('ignore', 'class-start'), {'C04', 'C11'}),
+    (('templates', 'shadow', 'let'), {'C05', 'C06', 'C11'}),
+    (('classes',), {'C05', 'C08', 'C11', 'C14'}),
+    (('sub-',), {'C13', 'C11'}),
+    (('plain',), {'C11', 'C08'}),
+    (('deep-nesting',), {'C17', 'C11'}),
+]
+
+
+def route_failures(pid, rep):
+    """a route on which the translator itself raises is a finding for the properties that route serves"""
+    R, mods = emitted_modules()
+    for m in mods:
+        if isinstance(m, tuple):
+            label, exc = m
+            for prefixes, props in ROUTE_PROPS:
+                if label.startswith(prefixes) and pid in props:
+                    rep.add(Finding('ROUTE-raises', 'sourcer/translator.py:generate_source_code', label,
+                                    f'compiling the route grammar {label} raises {exc}',
+                                    getattr(exc, 'where', '') or 'sourcer/translator.py'))
+
+
+def run(rep, pid, rules, label_filter=None):
+    """run the module-level route rules; add findings whose rule id starts with one of `rules`"""
+    R, mods = emitted_modules()
+    stats = {k: 0 for k in ('callsites', 'entries', 'ctx_reads', 'globals', 'literals', 'ignore_modules',
+                            'ignored_rules', 'skip_calls', 'ignored_name_sites', 'error_functions',
+                            'member_checks', 'classes')}
+    found = []
+    bad = lambda rule, msg: found.append((rule, msg))
+    nmods = 0
+    for m in mods:
+        if not isinstance(m, modroute.Emitted):
+            continue
+        nmods += 1
+        conformance(m, bad, stats)
+        local_shadowing(m, bad, stats)
+        context_wiring(m, bad, stats)
+        free_names(m, bad, stats)
+    ignore_distribution(R, bad, stats)
+    start_prefix_and_ignored_rule(R, mods, bad, stats)
+    route_ignored_sets(R, bad, stats)
+    who_may_call_ignored(bad, stats)
+    error_functions(mods, bad, stats)
+    class_tables(bad=bad, stats=stats)
+    class_members(R, bad, stats)
+    route_failures(pid, rep)
+    rep.count('route modules emitted', nmods)
+    for k, v in stats.items():
+        if v:
+            rep.count(f'route facts: {k}', v)
+    sel = [(r, msg) for r, msg in found if r.startswith(tuple(rules))
+           and (label_filter is None or label_filter(msg))]
+    rep.obligations += nmods * len(rules)
+    rep.discharged += nmods * len(rules) - len({(r, msg.split(': ')[0]) for r, msg in sel})
+    for rule, msg in sel:
+        label = msg.split(': ')[0]
+        rid, _, inst = rule.partition('@')
+        # key = rule : route label / instance  (instance names the attribute / kind, never a line)
+        rep.add(Finding(rid, 'emitted-module', label.split('[')[0] + ('/' + inst if inst else ''), msg,
+                        'sourcer/translator.py:generate_source_code + sourcer/expressions (route ' + label + ')'))
+    return found, stats, nmods
